@@ -12,9 +12,12 @@ CHECKS = {
                 "Refresh with LIFETIME in a boundary set, Refresh refused for a mismatching REQUESTED-ADDRESS-FAMILY (LIFETIME 0 and 3000), CreatePermission, ChannelBind, clock advance to next deadline -/+ 1ns, -/+ 1s, by 31s} "
                 "x 3 configured default lifetimes on the real turn.Server in virtual time; after every event the response, "
                 "Server.AllocationCount and a full probe sweep are compared with the reference model; then a drain through every "
-                "remaining deadline. A class is (event class => response); a state is the canonical model key.",
+                "remaining deadline. Part sched (Engine B, <= 2/3 preemptions): Refresh 0 followed at once by a new Allocate on the same 5-tuple while the first allocation's relay read loop / "
+                "lifetime timer are still winding down: the second allocation still answers a Refresh afterwards and is the one allocation the server counts. "
+                "A class is (event class => response); a state is the canonical model key.",
         "parts": [A("vtx", "./checks/c06", "TestC06", budget={"quick": 150, "thorough": 1500}),
-              A("bfs", "./checks/c06", "TestC06BFS", tiers=["thorough"], budget={"thorough": 1500})],
+              A("bfs", "./checks/c06", "TestC06BFS", tiers=["thorough"], budget={"thorough": 1500}),
+              A("sched", "./checks/bsem", "TestC06Sched", overlay=True, gomaxprocs=1, budget={"quick": 90, "thorough": 900})],
     },
 }
 
